@@ -200,6 +200,11 @@ def runPl (w : List String) : String :=
       | "badshare" => { base with share := some ⟨(i : Int), some (priEval f (i : Int) + 1)⟩ }
       | "T" => let v := parseNat arg % 4294967296; { base with t := v, sid := sidOf dpub base.commits v }
       | "Tx" => { base with t := parseNat arg % 4294967296 }
+      | "Tc" =>
+        let v := parseNat arg
+        let f2 := pad v f
+        { base with t := v, commits := commit g f2, sid := sidOf dpub (commit g f2) v,
+                    share := some ⟨(i : Int), some (priEval f2 (i : Int))⟩ }
       | "idx" => let k := parseInt arg; { base with share := some ⟨k, some (priEval f k)⟩ }
       | "nilshare" => { base with share := none }
       | "nilv" => { base with share := some ⟨(i : Int), none⟩ }
